@@ -400,6 +400,10 @@ class ApplyLayoutCastMemrefGlobal(RewritePattern):
         global_op = SymbolTable.lookup_symbol(op, const_source.name_)
         if not isinstance(global_op, memref.GlobalOp):
             return
+        # the data of the global is transformed as if it were row-major: a global that already has a layout
+        # (e.g. the result of an earlier transformation, for a chain of layout casts) cannot be handled
+        if not isinstance(const_source.memref.type.layout, builtin.NoneAttr):
+            return
 
         # apply transformation
         if isa(
